@@ -280,7 +280,8 @@ def rand_build(rng, st, encoded_ok=True):
         kw["scheme"] = pick(rng, urlgen.SCHEMES)
     if rng.random() < 0.15:
         kw["authority"] = pick(rng, ["h", "u:p@h:80", "[::1]:8080", "é.com", ":80", "u@", "h:99999", "[::1", "H", "u s:p%40@h", "h:0",
-                                     "[v1.a:b]", "[g::1]:80", "u@[v1.x]", "u:[p]@h", "[::FFFF:1.2.3.4]", "[fe80::1%25eth0]:1"])
+                                     "[v1.a:b]", "[g::1]:80", "u@[v1.x]", "u:[p]@h", "[::FFFF:1.2.3.4]", "[fe80::1%25eth0]:1",
+                                     "ex℀mple.com", "a＠evil.com", "bücher.example:8080", "u:p@ü.com", "a／b.com", "[fe80::1%é]"])
     if rng.random() < 0.4:
         kw["user"] = pick(rng, urlgen.USERS)
     if rng.random() < 0.3:
